@@ -249,7 +249,7 @@ func c09KeyvalueBase(c Case) *Failure {
 }
 
 func runC09(r *Run) {
-	r.Rule("explicit-state exploration: for every document with <= K nodes and both modes, depth-first over every chain of <= L root-independent steps (33-step alphabet: keys, wildcards, subscripts with literal and last-relative bounds, .**{a to b}, all methods, filters whose condition mentions only @); state = item sequence the prefix produced, transition = one appended step executed by the real Query(P.s, d) and compared with the concatenation over the state's items x of the real Query($.s, x) (failing iff the prefix or one of those fails; strict steps after .** excluded; keyvalue ids masked); plus variable/literal starts, keyvalue base-object restoration, and register-restoration expressions against the reference model; non-trivial = transitions whose source state is non-empty")
+	r.Rule("explicit-state exploration: for every document with <= K nodes and both modes, depth-first over every chain of <= L root-independent steps (33-step alphabet: keys, wildcards, subscripts with literal and last-relative bounds, .**{a to b}, all methods, filters whose condition mentions only @); state = item sequence the prefix produced, transition = one appended step executed by the real Query(P.s, d) and compared with the concatenation over the state's items x of the real Query($.s, x) (failing iff the prefix or one of those fails; strict steps after .** excluded; keyvalue ids masked); plus variable/literal starts, keyvalue base-object restoration, and register-restoration expressions against the reference model; non-trivial = transitions whose source state is non-empty; operands rooted in a variable whose steps mention the enclosing item ($x[@], $x[@.a], $x.a[@], $x[0 to @], $x[last-@], $x[*] ? (@ == $[0])) in 11 condition shapes under [*], [0 to last] and .* x 60 documents x 3 bindings of $x, against the reference")
 	steps := c09Steps()
 	texts := make([]string, len(steps))
 	for i, s := range steps {
@@ -421,6 +421,30 @@ func c09Registers(r *Run) {
 	vals = append(vals, mustDoc(`[{"a":1},{"a":1,"b":1}]`, "float64"), mustDoc(`[{"a":1,"b":1},{"a":1}]`, "float64"), mustDoc(`[{"a":"x","b":1},{"a":1,"b":1}]`, "float64"),
 		mustDoc(`[{"a":["x"],"b":1},{"a":[0],"b":1}]`, "float64"), mustDoc(`[{"a":1},{"a":2,"b":1}]`, "float64"), mustDoc(`[{"a":2,"b":1},{"a":1}]`, "float64"), mustDoc(`{"a":[1,"x"],"b":2}`, "float64"))
 	vals = append(vals, mustDoc(`{"a":{"a":1,"b":1},"b":1}`, "float64"), mustDoc(`[{"a":[1,2],"b":1},{"a":1,"b":2}]`, "float64"))
+	// operands rooted in a variable whose steps mention the enclosing item: evaluated anew for every
+	// item (the variable is constant, the chain below it is not)
+	var ves []*Expr
+	for _, chain := range [][]*Expr{{idx(eCur())}, {idx(eCur(sKey("a")))}, {sKey("a"), idx(eCur())}, {sIndex(subR(eInt(0), eCur()))}, {idx(eArith("-", eLast(), eCur()))},
+		{sAnyArray(), sFilter(eCmp("==", eCur(), eRoot(idx(eInt(0)))))}} {
+		v := eVar("x", chain...)
+		for _, pf := range []*Expr{eRoot(sAnyArray()), eRoot(sIndex(subR(eInt(0), eLast()))), eRoot(sAnyKey())} {
+			for k := int64(0); k <= 2; k++ {
+				ves = append(ves, pf.withSteps(sFilter(eCmp("==", v, eInt(k)))), pf.withSteps(sFilter(eCmp("==", eInt(k), v))))
+			}
+			ves = append(ves, pf.withSteps(sFilter(eCmp("==", v, eCur()))), pf.withSteps(sFilter(eExists(v))), pf.withSteps(sFilter(eCmp("==", eArith("+", v, eInt(1)), eInt(2)))),
+				pf.withSteps(sFilter(eAnd(eCmp(">", v, eInt(0)), eCmp("<", v, eInt(2))))), pf.withSteps(sFilter(eCmp("<", v, v))))
+		}
+		ves = append(ves, eRoot(idx(eVar("x", idx(eRoot(idx(eInt(0))))), eVar("x", idx(eRoot(idx(eInt(1))))))))
+	}
+	var vvals []any
+	for _, a := range []any{float64(0), float64(1), float64(2), map[string]any{"a": float64(1)}, map[string]any{"a": float64(2)}} {
+		for _, b := range []any{float64(0), float64(1), float64(2), map[string]any{"a": float64(0)}} {
+			vvals = append(vvals, []any{a, b}, []any{a, b, a}, map[string]any{"a": a, "b": b})
+		}
+	}
+	r.Bound("variable_rooted_paths", 2*len(ves))
+	refSweep(r, "variable-rooted-operand-per-item", bothModes(ves), makeDocs(vvals), []sweepCfg{{Num: "float64", Vars: map[string]string{"x": `j:[2,0,1]`}},
+		{Num: "float64", Vars: map[string]string{"x": `j:{"a":[1,0,2]}`}}, {Num: "number", Vars: map[string]string{"x": `j:[[0],1,2]`}}})
 	r.Bound("register_paths", 2*len(es))
 	r.Bound("register_documents", len(vals))
 	refSweep(r, "register-restoration-vs-reference", bothModes(es), makeDocs(vals), []sweepCfg{{Num: "float64"}})
